@@ -63,8 +63,8 @@ prop(
     assumptions=['codecs (PyTables, netCDF4, xdrfile, dcdplugin, printf-style text formatting) store what they are given', 'unit factors 10 / 0.1 between nm and angstrom'],
     explanation='Writer call-site obligations for all 13 savers x {1,3} frames x {cell, no cell}; codecs bounded.',
     technique='contract-based deductive verification: symbolic execution of the real Python source against sidecar contracts, VCs to z3/cvc5 (writer call-site plumbing); bounded save/load round trip with an independent byte-level decoder as labelled stand-in for the codecs',
-    level_text="Deductive core: every save_* feeds its writer the trajectory's fields converted to the format's native unit (unit table from the format specifications), frame i with frame i, input unmodified, and the extension table dispatches correctly (all paths, symbolic force_overwrite and cell conditions). The codecs themselves (text layouts, XDR/DCD/NetCDF/HDF5 encoders) and the readers are covered by the bounded round-trip check only, which reads the bytes with an independent decoder: level 'other' because an mdtraj part of the critical path is bounded-only.",
-    level_note='Trusted: VC generator, traced-array numpy model, in_units_of factor table, third-party codecs. Reader-side plumbing (read_as_traj) is bounded-only for now.',
+    level_text="Deductive core: every save_* feeds its writer the trajectory's fields converted to the format's native unit (unit table from the format specifications), frame i with frame i, input unmodified, and the extension table dispatches correctly (all paths, symbolic force_overwrite and cell conditions); on the way back, read_as_traj of the pure-Python readers (hdf5, netcdf, mdcrd, xyz, lammpstrj, arc, lh5) converts coordinates and cell lengths native->nm exactly once and passes angles and stored times through, so the two unit factors cancel. The codecs themselves (text layouts, XDR/DCD/NetCDF/HDF5 encoders), the text parsers and the Cython readers are covered by the bounded round-trip check only, which reads the bytes with an independent decoder: level 'other' because an mdtraj part of the critical path is bounded-only.",
+    level_note='Trusted: VC generator, traced-array numpy model, in_units_of factor table, third-party codecs.',
 )
 
 prop(
@@ -291,15 +291,19 @@ _N = ("Trusted: the VC generator and its models (listed in evidence), reals for 
 _TEXTS = {
     "C02": (_T_PY, "Deductive: read(n_frames, stride) of the HDF5 and NetCDF file classes for symbolic N, position, n and stride (frames delivered, count, new "
             "position); the iterload generator by a chunk-loop invariant (start frame skip+k*chunk*stride, sizes, stride, atoms, termination only when nothing is "
-            "left; chunk=0 and PDB delegation stated semantically); load_pdb(frame=i) time. Bounded only: the Cython/C readers (xtc, trr, dcd, dtr, binpos), the text "
-            "readers, load() over file lists."),
+            "left; chunk=0 and PDB delegation stated semantically); load_pdb(frame=i) time; md.load (one loader call per file with the caller's stride / "
+            "atom_indices / topology, joined in order, caller's topology left unmodified); the load_<format> glue (frame=i: seek(i) then one frame); read_as_traj of the "
+            "pure-Python file classes (delegates partial loading to read once, restricts the topology iff atom_indices). Bounded only: the Cython/C readers (xtc, trr, "
+            "dcd, dtr, binpos), the text parsers themselves."),
     "C04": (_T_PY, "Deductive: the real Topology/Chain/Residue/Atom/Bond code on a fixed shape (2 chains, 3 residues, 5 atoms, 4 typed bonds) with symbolic "
             "resSeq/serial: copy/__copy__/__deepcopy__, subset for all 31 subsets, join, in-place edits, ==/hash: abstract view equality, well-formedness, bond "
-            "endpoints are own atoms, independence of the copy. Complete in the values, bounded in the shape. Bounded only: other shapes, carriers (HDF5, PDB, DataFrame, pickle)."),
+            "endpoints are own atoms, independence of the copy; the HDF5 topology setter/getter pair returns what its schema holds for every resSeq value. "
+            "Complete in the values, bounded in the shape. Bounded only: other shapes, carriers PDB, DataFrame, pickle."),
     "C05": (_T_C, "Deductive: dist, dist_mic, dist_mic_triclinic for ALL frames and pairs (loop invariants): lattice congruence with explicit integer witnesses, "
             "wrap bounds, box reduction keeps the lattice, all 27 images examined, result is one of them and not longer than any, d^2=|out|^2, frame conditions; lemma L1; "
-            "compute_distances_core dispatch (minimum-image path iff periodic and cell; orthorhombic kernel iff every frame orthogonal; box transposed once). "
-            "Bounded only: float32 effects, the _t (time-pair) kernels, the NumPy reference path, displacement wrappers."),
+            "compute_distances_core dispatch (minimum-image path iff periodic and cell; orthorhombic kernel iff every frame orthogonal; box transposed once); "
+            "the time-pair kernels dist_t / dist_mic_t (atom a from frame t1, atom b from frame t2, cell of t1). "
+            "Bounded only: float32 effects, dist_mic_triclinic_t, the NumPy reference path (opt=False), displacement wrappers."),
     "C06": (_T_C, "Deductive: msdFromMandG on a symbolic inner-product matrix: the code's C_2, C_1, C_0 are the coefficients of det(K - xI) for the Horn/Theobald key "
             "matrix K(M) (exact polynomial identities on the code's own terms), Horn's identity q^T K q = <R(q), M>, msd = max(0,(G_x+G_y-2 lambda)/N), the code's quaternion is "
             "the cofactor vector of K - lambda I (an eigenvector), rot = R(q/|q|) with R^T R = I and det R = +1; Trajectory.superpose / center_coordinates keep the trace "
@@ -326,15 +330,19 @@ _TEXTS = {
     "C13": (_T_C, "Deductive: asa_frame for symbolic atom and point counts (five loop invariants): the neighbour list is exactly the overlapping other atoms; a sphere point "
             "is rejected iff strictly inside a listed atom, accepted iff inside no other atom (prefilter soundness lemma); areas[i] = 4 pi R_i^2/P * #accessible points, "
             "independent of the old buffer; unselected atoms untouched; sasa: group value = sum over the selected atoms of the group, per frame row; golden-spiral points are "
-            "unit vectors at heights (2i+1)/n-1. Bounded only: shrake_rupley's Python bookkeeping (radii table, -1 for unselected), float32 boundary cases, static state across calls."),
+            "unit vectors at heights (2i+1)/n-1; shrake_rupley's Python wrapper (radii = table/changed value + probe, atom->group mapping, selection mask, -1 / 0 "
+            "initialisation of the output). Bounded only: float32 boundary cases, static state across calls."),
     "C14": (_T_C, "Deductive: store_energies keeps the best two (energy, acceptor) pairs per donor (all call sequences by induction); ks_donor_acceptor formula and clamp; "
             "virtual hydrogen placement; kabsch_sander evaluates exactly the complete pairs within the CA prefilter on each frame's own coordinates and offers (ri->rj) / (rj->ri) "
             "iff E < -0.5, not proline, rj != ri+1; baker_hubbard and wernet_nilsson return exactly the triplets meeting the documented criteria (strictness, degrees/radians, "
             "frequency over frames, periodic flag on all three sides) on fixed small shapes with symbolic distances. Bounded only: _get_bond_triplets on real topologies, float32, "
             "chain-boundary hydrogens (known findings)."),
     "C15": (_T_C, "Deductive: the DSSP driver (per-frame call order and arguments, skip mask, code->character table, one character per residue per frame), the bridge patterns "
-            "of _residue_test_bridge (Kabsch & Sander), calculate_bends (70 degree kappa rule). Bounded only: ladder building and bulge merging (calculate_beta_sheets), helix "
-            "flags and priorities (calculate_alpha_helices), compute_dssp's Python overlay ('NA', simplified codes) -- compared with an independent implementation of the DSSP rules."),
+            "of _residue_test_bridge (Kabsch & Sander), calculate_bends (70 degree kappa rule); calculate_alpha_helices against the rules (n-turns, minimal helices, H/G/I "
+            "priorities, turns, bends) for EVERY hydrogen-bond relation on 7-residue chains (8 in the thorough tier; one chain, two chains, with a strand residue and an "
+            "incomplete residue); calculate_beta_sheets against the ladder/bulge rules for every bridge table over designed candidate sets (n = 8..17: all pairs, parallel and "
+            "antiparallel bulges, gap 5, two chains, incomplete partner); compute_dssp's Python overlay ('NA', simplified alphabet, index tables). These two are complete in "
+            "the relation and bounded in the chain length. Bounded only: longer chains and real proteins (independent implementation of the DSSP rules)."),
     "C16": (_T_PY, "Deductive: compute_contacts for all schemes x explicit/'all' pairs x min/soft-min on a topology with unequal residue sizes and symbolic distances (value "
             "= min or soft-min over exactly the designated atom pairs of the returned label); compute_rdf shell normalisation and histogram convention; centre of "
             "geometry/mass, gyration tensor, Rg as closed forms on symbolic coordinates. Bounded only: DRID, nematic order, dipoles, J-couplings, principal moments, density, float32."),
